@@ -25,7 +25,9 @@ impl StateMachine<'_> {
             // Likewise if there was no "diff" line for this file at all (`diff -r`: the stored
             // names are those of the previous file), and if the header of this file has been
             // written already (a renamed or copied file): the line is what says "binary".
+            // Likewise if no header will be written at all (file-style raw without decoration).
             if (self.minus_file.is_empty() && self.plus_file.is_empty())
+                || !self.should_handle_diff_header()
                 || !matches!(self.state, State::DiffHeader(_))
                 || (self.current_file_pair.is_some()
                     && self.handled_diff_header_header_line_file_pair == self.current_file_pair)
